@@ -338,6 +338,11 @@ type c16PlugTarget struct {
 }
 
 func c16NewPlugTarget(env *c16Env, c *c16Case, r *c16Render) *c16PlugTarget {
+	return c16StartPlugin(env, c, r, true)
+}
+
+// fresh=false: a further processor's instance of the same pipeline; it shares the pipeline's limiters map
+func c16StartPlugin(env *c16Env, c *c16Case, r *c16Render, fresh bool) *c16PlugTarget {
 	kind := c16KindStr(c.K)
 	conf := &Config{
 		ThrottleField:     "k8s_pod",
@@ -364,9 +369,11 @@ func c16NewPlugTarget(env *c16Env, c *c16Case, r *c16Render) *c16PlugTarget {
 	}
 	test.NewConfig(conf, nil)
 	// plugins of one pipeline share their limiters map; make sure this instance starts from an empty one
-	limitersMu.Lock()
-	delete(limiters, env.name)
-	limitersMu.Unlock()
+	if fresh {
+		limitersMu.Lock()
+		delete(limiters, env.name)
+		limitersMu.Unlock()
+	}
 	p := &Plugin{}
 	p.Start(conf, &pipeline.ActionPluginParams{
 		PluginDefaultParams: pipeline.PluginDefaultParams{
@@ -725,6 +732,183 @@ func TestVerifC16Expiry(t *testing.T) {
 		res.Why = "the idle key was not forgotten: expiry was not exercised"
 	default:
 		res.Conclusive = true
+	}
+	b, _ := json.Marshal(res)
+	if err := os.WriteFile(out, b, 0o644); err != nil {
+		t.Fatal(err)
+	}
+}
+
+// ---------------------------------------------------------------------------------------------
+// concurrency family: the processors of one pipeline each own a Plugin instance and share the pipeline's
+// limiters map (Start: limiters[p.pipeline]).  c16ConcProcs real instances of one pipeline meet at
+// BRAND-NEW keys at the same instant, bucket clock frozen, so all events of a key are timed in one bucket:
+// whatever the interleaving inside limitersMap.getOrAdd, a key has ONE budget -- per key exactly
+// min(limit, arrivals) events pass (count kind; order-independent, evaluated on the merged real history).
+//   forced keys : the harness holds the map's write lock while every instance queues on the read lock of
+//                 getOrAdd's fast path, then releases them together: all miss, all go on to the write-locked
+//                 re-check (the interleaving is constructed; the goroutines reaching the lock in time is not
+//                 guaranteed, only very likely, and is not needed for soundness)
+//   natural keys: the instances then run through further fresh keys in the same order with no help
+//                 (probabilistic).
+// Correct code has one limiter per key, so this family cannot fail on it.
+
+const c16ConcProcs = 8
+
+type c16ConcOut struct {
+	Procs       int       `json:"processors"`
+	Rounds      int       `json:"rounds"`
+	Keys        int       `json:"keys"`
+	ForcedKeys  int       `json:"forced_keys"`
+	Hits        int       `json:"hits"`
+	QueuedMin   int       `json:"queued_at_release_min"`
+	OverLimit   int       `json:"keys_over_limit"`
+	EarlyReject int       `json:"keys_early_reject"`
+	Violations  []*c16Rec `json:"violations"`
+}
+
+func TestVerifC16Concurrent(t *testing.T) {
+	out := os.Getenv("VERIF_CONC_OUT")
+	if out == "" {
+		t.Skip("VERIF_CONC_OUT not set")
+	}
+	seed, _ := strconv.ParseInt(os.Getenv("VERIF_SEED"), 10, 64)
+	rng := rand.New(rand.NewSource(seed))
+	const rounds, keysPerRound, seqExtra = 30, 4, 2
+
+	c := &c16Case{S: "concurrent", C: 2, K: 0, D: 0, L: []int64{1, 3}} // rule (grp g1): limit 1, default rule: limit 3
+	r := &c16Render{interval: time.Hour, intervalStr: "1h", level: []string{"info"}, useRules: true,
+		phaseNow: []time.Duration{30 * time.Minute}, phaseTs: []time.Duration{30 * time.Minute}}
+	env := &c16Env{
+		name: fmt.Sprintf("verif_c16_conc_%d", time.Now().UnixNano()),
+		ctl:  metric.NewCtl("verif_c16_conc", prometheus.NewRegistry(), 0, 0),
+		lg:   zap.NewNop().Sugar(),
+	}
+	t0 := r.at(0, 0, r.phaseNow[0])
+	tsStr := t0.UTC().Format(time.RFC3339Nano)
+	tgts := make([]*c16PlugTarget, c16ConcProcs)
+	for i := range tgts {
+		tgts[i] = c16StartPlugin(env, c, r, i == 0)
+	}
+	defer func() {
+		for _, x := range tgts[1:] {
+			x.p.Stop()
+		}
+		tgts[0].close()
+	}()
+	lm := tgts[0].p.limitersMap
+	for _, x := range tgts {
+		if x.p.limitersMap != lm {
+			t.Fatal("instances of one pipeline do not share the limiters map: the family's premise is gone")
+		}
+	}
+	lm.setNowFn(func() time.Time { return t0 }, true)
+
+	res := &c16ConcOut{Procs: c16ConcProcs, Rounds: rounds, QueuedMin: c16ConcProcs}
+	do := func(p *Plugin, pod string, class int) bool {
+		js := `{"time":"` + tsStr + `","k8s_pod":"` + pod + `","grp":"g` + strconv.Itoa(class) + `","extra":"y","level":"info"}`
+		root, err := insaneJSON.DecodeString(js)
+		if err != nil {
+			panic(err)
+		}
+		ok := p.Do(&pipeline.Event{Root: root, Size: 1}) == pipeline.ActionPass
+		insaneJSON.Release(root)
+		return ok
+	}
+
+	for round := 0; round < rounds; round++ {
+		pods := make([]string, keysPerRound)
+		class := make([]int, keysPerRound)
+		for j := range pods {
+			pods[j] = fmt.Sprintf("r%d_k%d", round, j)
+			class[j] = 1 + rng.Intn(2)
+		}
+		passed := make([][]int32, c16ConcProcs) // per processor, per key
+		var entering int32
+		var mu sync.Mutex
+		var wg sync.WaitGroup
+
+		lm.mu.Lock() // line the processors up in front of the map
+		for i := 0; i < c16ConcProcs; i++ {
+			passed[i] = make([]int32, keysPerRound)
+			wg.Add(1)
+			go func(i int) {
+				defer wg.Done()
+				mu.Lock()
+				entering++
+				mu.Unlock()
+				for j := 0; j < keysPerRound; j++ { // key 0 is the forced one, the others are natural races
+					if do(tgts[i].p, pods[j], class[j]) {
+						passed[i][j]++
+					}
+				}
+			}(i)
+		}
+		deadline := time.Now().Add(200 * time.Millisecond)
+		for time.Now().Before(deadline) {
+			mu.Lock()
+			n := entering
+			mu.Unlock()
+			if n == c16ConcProcs {
+				break
+			}
+			time.Sleep(200 * time.Microsecond)
+		}
+		time.Sleep(2 * time.Millisecond) // let them reach the read lock
+		mu.Lock()
+		if int(entering) < res.QueuedMin {
+			res.QueuedMin = int(entering)
+		}
+		mu.Unlock()
+		lm.mu.Unlock()
+		wg.Wait()
+
+		// a few more events per key, sequentially, same bucket
+		extra := make([]int, keysPerRound)
+		for j := 0; j < keysPerRound; j++ {
+			for x := 0; x < seqExtra; x++ {
+				if do(tgts[rng.Intn(c16ConcProcs)].p, pods[j], class[j]) {
+					extra[j]++
+				}
+			}
+		}
+		for j := 0; j < keysPerRound; j++ {
+			total := extra[j]
+			for i := 0; i < c16ConcProcs; i++ {
+				total += int(passed[i][j])
+			}
+			arrivals := c16ConcProcs + seqExtra
+			limit := int(c.L[class[j]-1])
+			want := limit
+			if arrivals < want {
+				want = arrivals
+			}
+			res.Keys++
+			res.Hits += arrivals
+			if j == 0 {
+				res.ForcedKeys++
+			}
+			kind := ""
+			switch {
+			case total > limit:
+				kind = "over_limit"
+				res.OverLimit++
+			case total < want:
+				kind = "early_reject"
+				res.EarlyReject++
+			}
+			if kind != "" && len(res.Violations) < 10 {
+				phase := "natural"
+				if j == 0 {
+					phase = "forced"
+				}
+				res.Violations = append(res.Violations, &c16Rec{Kind: kind, Path: "plugin_concurrent", Slice: "concurrent",
+					LKind: limitKindCount, Buckets: c.C, Step: round, Must: -1,
+					Detail: fmt.Sprintf("brand-new key %q (limit %d, %s first touch) hit by %d plugin instances of one pipeline at once, all events in one bucket: %d of %d events passed, want %d",
+						pods[j], limit, phase, c16ConcProcs, total, arrivals, want),
+					Variant: r.variant(), Case: c})
+			}
+		}
 	}
 	b, _ := json.Marshal(res)
 	if err := os.WriteFile(out, b, 0o644); err != nil {
